@@ -78,7 +78,7 @@ class Translate(AtomsProperty):
         if not scaled:
             pos = sT.get_positions()
         else:
-            pos = sT.get_scaled_positions()
+            pos = sT.get_scaled_positions(wrap=False)
 
         pos[selection.indices] += vector
 
@@ -142,7 +142,7 @@ class Rotate(AtomsProperty):
         if not scaled:
             pos = sT.get_positions()
         else:
-            pos = sT.get_scaled_positions()
+            pos = sT.get_scaled_positions(wrap=False)
 
         pos -= center
         if periodic:
@@ -212,7 +212,7 @@ class Mirror(AtomsProperty):
         if not scaled:
             pos = sT.get_positions()
         else:
-            pos = sT.get_scaled_positions()
+            pos = sT.get_scaled_positions(wrap=False)
 
         if center is not None:
 
